@@ -54,7 +54,7 @@ def csOps : Ops CS where
   atT := fun s => some s.cur.cur.t
   adjust := fun _ s => s
   bad := fun s => s.bad
-  fuel := fun s => s.cur.rest.length + (s.rest.map fun c => c.rest.length).sum
+  fuel := fun s => s.cur.rest.length + (s.rest.map fun c => c.rest.length).sum + 1
 
 /-- `newChunkSeriesIterator(cs)`; `none` for the empty list (`errSeriesIterator`) -/
 def CS.init : List (List Sample) → Option CS
